@@ -12,6 +12,7 @@ import (
 	"runtime"
 	"sort"
 	"strconv"
+	"strings"
 	"sync"
 	"time"
 )
@@ -120,6 +121,16 @@ func RunCheck(prop, tier string) int {
 	dir := VerifDir()
 	known := LoadKnown(filepath.Join(dir, "known-findings.json"))
 	units := ck.Units(tier)
+	if only := os.Getenv("VERIF_ONLY"); only != "" {
+		// debugging aid: restrict to units whose name contains the substring
+		var sel []Unit
+		for _, u := range units {
+			if strings.Contains(u.Name(), only) {
+				sel = append(sel, u)
+			}
+		}
+		units = sel
+	}
 	budget := ck.Budget(tier)
 	if s := os.Getenv("VERIF_BUDGET_S"); s != "" {
 		if n, err := strconv.Atoi(s); err == nil {
